@@ -4,7 +4,7 @@
    serde_json emits is a member of the declared TypeScript type.  Layer lemma for one definition
    (parametrised by what holds of its field types), then induction on serde's recursion depth. *)
 From TsRs Require Import Base.Str Base.Outcome Gen.Tables Model.Case Model.TsAst Model.Rust Model.Docs Model.Gen
-  Spec.TsFree Spec.TsSem Spec.Serde Spec.RtyInd Proofs.Gen_base_proofs Proofs.Sem_base_proofs Proofs.Sem_lib_proofs Proofs.Sem_alt_proofs Model.Path Model.Merge Model.GenExport.
+  Spec.TsFree Spec.TsSem Spec.Serde Spec.RtyInd Proofs.Gen_base_proofs Proofs.Sem_base_proofs Proofs.Sem_lib_proofs Proofs.Sem_alt_proofs Proofs.Gen_scoped_proofs Model.Path Model.Merge Model.GenExport.
 From Coq Require Import List Lia Bool ZArith Sorting.Permutation.
 Import ListNotations.
 Local Open Scope nat_scope.
@@ -81,10 +81,10 @@ Definition opt_sound (opt : optional) (f : field) : Prop :=
   | Optional nl, _ => is_option (f_ty f) = true /\ (nl = true \/ f_skip_none f = true)
   end.
 
-(* a field with rename, skip, inline and optional only; inline only in definitions without type parameters *)
+(* a field with rename, skip, inline and optional only; an inlined field has a closed type (no type parameter of the definition) *)
 Definition plain_field (n : nat) (opt : optional) (f : field) : Prop :=
   f_flatten f = false /\ f_type f = None /\ f_serde_ty f = f_ty f /\ pmono n (f_ty f) = true /\
-  (f_inline f = true -> n = 0%nat) /\ opt_sound opt f.
+  (f_inline f = true -> pmono 0 (f_ty f) = true) /\ opt_sound opt f.
 
 (* the content of a newtype variant of an internally tagged enum: a struct with named fields (at least one), without a tag of
    its own, none of whose keys is the enum's tag *)
@@ -120,11 +120,52 @@ Definition flat_keys (t : rty) : list str :=
       end
   | _ => []
   end.
-(* a flattened field: of such a struct, in a definition without type parameters *)
+(* a flattened field: of such a struct, the flattened type is closed (mentions no type parameter of the host) *)
 Definition flat_field (n : nat) (f : field) : Prop :=
-  f_flatten f = true /\ f_type f = None /\ f_serde_ty f = f_ty f /\ pmono n (f_ty f) = true /\ n = 0%nat /\
+  f_flatten f = true /\ f_type f = None /\ f_serde_ty f = f_ty f /\ pmono n (f_ty f) = true /\ pmono 0 (f_ty f) = true /\
   f_optional f = NotOptional /\ f_skip_none f = false /\ flat_struct (f_ty f).
 Definition nfield (n : nat) (opt : optional) (f : field) : Prop := plain_field n opt f \/ flat_field n f.
+
+Lemma rsubst_closed args : forall t, src_ty 0 t = true -> rsubst args t = t.
+Proof.
+  induction t as [l|t IH|t IH|n t IH|ts IH|k v IHk IHv|t IH|t e IHt IHe|t IH|id targs IH|i|n] using rty_ind';
+    cbn [src_ty rsubst]; intros H; try discriminate; try reflexivity; try (f_equal; auto; fail).
+  - f_equal. apply map_id_forall. rewrite Forall_forall in *. intros x Hx. apply IH; [exact Hx|]. rewrite forallb_forall in H. auto.
+  - apply andb_true_iff in H as [H1 H2]. f_equal; auto.
+  - apply andb_true_iff in H as [H1 H2]. f_equal; auto.
+  - f_equal. apply map_id_forall. rewrite Forall_forall in *. intros x Hx. apply IH; [exact Hx|]. rewrite forallb_forall in H. auto.
+Qed.
+
+Lemma flat_map_nil {A B} (f : A -> list B) l : (forall x, In x l -> f x = []) -> flat_map f l = [].
+Proof. induction l as [|x l IH]; intros H; [reflexivity|]. cbn [flat_map]. rewrite (H x (or_introl eq_refl)), IH; [reflexivity|]. intros y Hy. apply H. right. exact Hy. Qed.
+
+Lemma rdummies_closed : forall t, src_ty 0 t = true -> rdummies t = [].
+Proof.
+  induction t as [l|t IH|t IH|n t IH|ts IH|k v IHk IHv|t IH|t e IHt IHe|t IH|id targs IH|i|n] using rty_ind';
+    cbn [src_ty rdummies]; intros H; try discriminate; try reflexivity; auto.
+  - apply flat_map_nil. rewrite Forall_forall in IH. rewrite forallb_forall in H. intros x Hx. apply IH; auto.
+  - apply andb_true_iff in H as [H1 H2]. rewrite (IHk H1), (IHv H2). reflexivity.
+  - apply andb_true_iff in H as [H1 H2]. rewrite (IHt H1), (IHe H2). reflexivity.
+  - apply flat_map_nil. rewrite Forall_forall in IH. rewrite forallb_forall in H. intros x Hx. apply IH; auto.
+Qed.
+
+Lemma flat_map_nil_inv {A B} (f : A -> list B) l : flat_map f l = [] -> forall x, In x l -> f x = [].
+Proof. induction l as [|y l IH]; intros H x Hx; [contradiction|]. cbn [flat_map] in H. apply app_eq_nil in H as [H1 H2]. destruct Hx as [<-|Hx]; [exact H1 | exact (IH H2 x Hx)]. Qed.
+
+(* a type without type variables is its own instance *)
+Lemma tsubst_closed sn0 sf0 : forall t, ftv t = [] -> tsubst sn0 sf0 t = t.
+Proof.
+  induction t as [n|n|n|n targs IH|u IH| | |ts IH|st ps IH|k v IHk IHv|a b IHa IHb|ts IH|ts IH|u IH|l|r|u IH|u IH] using tsty_ind';
+    cbn [ftv tsubst]; intros H; try discriminate; try reflexivity; try (f_equal; auto; fail).
+  - f_equal. apply map_id_forall. rewrite Forall_forall in *. intros x Hx. apply IH; [exact Hx | exact (flat_map_nil_inv _ _ H x Hx)].
+  - f_equal. apply map_id_forall. rewrite Forall_forall in *. intros x Hx. apply IH; [exact Hx | exact (flat_map_nil_inv _ _ H x Hx)].
+  - f_equal. induction ps as [|[h ty] ps IHps]; [reflexivity|]. cbn [map flat_map fst snd] in *. apply app_eq_nil in H as [H1 H2].
+    inversion IH as [|? ? Hp Hr]; subst. cbn [snd] in Hp. rewrite (Hp H1). f_equal. apply IHps; assumption.
+  - apply app_eq_nil in H as [H1 H2]. rewrite (IHk H1), (IHv H2). reflexivity.
+  - apply app_eq_nil in H as [H1 H2]. rewrite (IHa H1), (IHb H2). reflexivity.
+  - f_equal. apply map_id_forall. rewrite Forall_forall in *. intros x Hx. apply IH; [exact Hx | exact (flat_map_nil_inv _ _ H x Hx)].
+  - f_equal. apply map_id_forall. rewrite Forall_forall in *. intros x Hx. apply IH; [exact Hx | exact (flat_map_nil_inv _ _ H x Hx)].
+Qed.
 
 Lemma rsubst_nil : forall t, src_ty 0 t = true -> rsubst [] t = t.
 
@@ -193,7 +234,7 @@ Qed.
 Definition tytext (b : bool) (t : rty) : outcome tsty :=
   if b then inl (rsubst gargs t) else name_of R (rsubst gargs t).
 (* what is known of the types of the definition: what serde writes for them inhabits their text ... *)
-Hypothesis Hty : forall b t v j a, pmono R n t = true -> (b = true -> n = 0%nat) ->
+Hypothesis Hty : forall b t v j a, pmono R n t = true -> (b = true -> pmono R 0 t = true) ->
   st (rsubst sargs t) v = Some j -> tytext b t = Ok a -> ev a j.
 (* ... and an Option is written as its content or as null *)
 Hypothesis Hsto : forall u v j, st (ROption u) v = Some j -> (v = VNone /\ j = JNull) \/ exists w, v = VSome w /\ st u w = Some j.
@@ -204,7 +245,7 @@ Hypothesis Halt : forall tg t v l a, struct_content R tg t -> pmono R n t = true
   exists ks, ev_alt E (tsubst sn sf a) ks l /\ ~ In tg ks.
 
 (* ... and a struct flattened into the definition is written as one exact object over its own keys *)
-Hypothesis Hflat : forall t v l a, flat_struct R t -> pmono R n t = true -> n = 0%nat ->
+Hypothesis Hflat : forall t v l a, flat_struct R t -> pmono R n t = true -> pmono R 0 t = true ->
   st (rsubst sargs t) v = Some (JObj l) -> flt (rsubst gargs t) = Ok a ->
   ev_alt E (tsubst sn sf a) (flat_keys R t) l /\ ev a (JObj l) /\ NoDup (map fst l).
 
@@ -241,7 +282,7 @@ Proof.
                    f_skip_none f = true ->
                    (if f_inline f then inl (rsubst gargs u) else name_of R (rsubst gargs u)) = Ok a ->
                    forall j, st (rsubst sargs (f_ty f)) v = Some j -> ev a j).
-  { intros u Hu Hnn Hsn Ha' j Hj. rewrite Hu in Hj, Hmono. cbn [rsubst pmono] in Hj, Hmono.
+  { intros u Hu Hnn Hsn Ha' j Hj. rewrite Hu in Hj, Hmono, Hinl0. cbn [rsubst pmono] in Hj, Hmono, Hinl0.
     destruct (Hsto _ _ _ Hj) as [[-> _]|(w & -> & Hw)]; [rewrite Hsn in Hnn; discriminate|].
     eapply (Hty (f_inline f) u w j a); eassumption. }
   unfold opt_sound in Hos. unfold field_optional in Ha |- *.
@@ -1118,7 +1159,7 @@ Qed.
 
 Definition plain_fieldb (n : nat) (opt : optional) (f : field) : bool :=
   negb (f_flatten f) && is_none (f_type f) && rty_eqb (f_serde_ty f) (f_ty f) && pmono R n (f_ty f) &&
-  (negb (f_inline f) || Nat.eqb n 0) && opt_soundb opt f.
+  (negb (f_inline f) || pmono R 0 (f_ty f)) && opt_soundb opt f.
 
 Lemma plain_fieldb_ok n opt f : plain_fieldb n opt f = true -> plain_field R n opt f.
 Proof.
@@ -1129,7 +1170,7 @@ Proof.
   - apply is_none_eq; assumption.
   - apply rty_eqb_eq; assumption.
   - assumption.
-  - intros Hi. match goal with Hx : (negb (f_inline f) || Nat.eqb n 0)%bool = true |- _ => rewrite Hi in Hx; cbn in Hx; apply Nat.eqb_eq in Hx; exact Hx end.
+  - intros Hi. match goal with Hx : (negb (f_inline f) || pmono R 0 (f_ty f))%bool = true |- _ => rewrite Hi in Hx; cbn [negb orb] in Hx; exact Hx end.
   - apply opt_soundb_ok; assumption.
 Qed.
 
@@ -1167,7 +1208,7 @@ Proof.
 Qed.
 
 Definition flat_fieldb (n : nat) (f : field) : bool :=
-  f_flatten f && is_none (f_type f) && rty_eqb (f_serde_ty f) (f_ty f) && pmono R n (f_ty f) && Nat.eqb n 0 &&
+  f_flatten f && is_none (f_type f) && rty_eqb (f_serde_ty f) (f_ty f) && pmono R n (f_ty f) && pmono R 0 (f_ty f) &&
   match f_optional f with NotOptional => true | _ => false end && negb (f_skip_none f) && flat_structb (f_ty f).
 
 Lemma flat_fieldb_ok n f : flat_fieldb n f = true -> flat_field R n f.
@@ -1177,7 +1218,6 @@ Proof.
   repeat split; try assumption.
   - apply is_none_eq; assumption.
   - apply rty_eqb_eq; assumption.
-  - apply Nat.eqb_eq; assumption.
   - destruct (f_optional f); [reflexivity | discriminate].
   - apply negb_true_iff; assumption.
   - apply flat_structb_ok; assumption.
@@ -1434,7 +1474,7 @@ Definition is_ok {A} (o : outcome A) : bool := match o with Ok _ => true | _ => 
 (* every definition is plain, gets a declaration, and declaration names are distinct *)
 Definition plain_envb : bool :=
   forallb (fun p => plain_defb R (snd p) && is_ok (decl_of gf (snd p))) R &&
-  nodupb (map (fun p => ts_ident (snd p)) R).
+  nodupb (map (fun p => ts_ident (snd p)) R) && src_env R.
 
 Hypothesis Henv : plain_envb = true.
 
@@ -1480,13 +1520,16 @@ Lemma env_facts :
   (forall id d, lookup R id = Some d -> plain_def R (nparams d) d /\ NoDup (map fst (c_params (attrs_of d))) /\
      exists dc, dlookup env_of (ts_ident d) = Some dc /\ decl_of gf d = Ok dc).
 Proof.
-  unfold plain_envb in Henv. apply andb_true_iff in Henv as [Hall Hnd].
+  unfold plain_envb in Henv. apply andb_true_iff in Henv as [Henv0 _]. apply andb_true_iff in Henv0 as [Hall Hnd].
   rewrite forallb_forall in Hall. apply nodupb_NoDup in Hnd.
   intros id d Hlk. pose proof (lookup_in _ _ _ Hlk) as Hin. specialize (Hall _ Hin) as Hd. cbn [snd] in Hd.
   apply andb_true_iff in Hd as [Hp _]. destruct (plain_defb_ok R d Hp) as [Hpd Hnp]. split; [exact Hpd|]. split; [exact Hnp|].
   refine (dlookup_env_of R _ Hnd id d Hin).
   intros p Hp'. specialize (Hall p Hp'). apply andb_true_iff in Hall as [_ H2]. exact H2.
 Qed.
+
+Lemma env_src : env_ok R.
+Proof. apply src_env_ok. unfold plain_envb in Henv. apply andb_true_iff in Henv as [_ H]. exact H. Qed.
 
 Lemma dummies_eq a : dummies a = map RDummy (map fst (c_params a)).
 Proof. unfold dummies. rewrite map_map. reflexivity. Qed.
@@ -1572,11 +1615,13 @@ Proof.
       assert (Hmono : mono_ty (rsubst args t0) = true).
       { apply (pmono_subst R (nparams d) args); [apply Forall_forall; rewrite forallb_forall in Hargs; exact Hargs | exact Hlen | exact Hpm]. }
       destruct b.
-      * (* inline: only in definitions without parameters *)
-        specialize (Hin0 eq_refl). unfold nparams in Hin0, Hlen. rewrite Hin0 in Hlen.
-        destruct args; [|discriminate]. assert (Hc : c_params (attrs_of d) = []) by (destruct (c_params (attrs_of d)); [reflexivity | discriminate]).
-        unfold dummies in Ha0. rewrite Hc in Ha0, Hps. cbn [map] in Ha0, Hps. destruct ps; [|discriminate]. cbn in Hl. inversion Hl; subst l.
-        cbn [bind_params]. rewrite tsubst_none. eapply Hinl; [exact Hmono | exact Hs0 | exact Ha0].
+      * (* inline: the type of the field is closed, so is its text *)
+        specialize (Hin0 eq_refl). pose proof (pmono_src R 0 _ Hin0) as Hsrc0.
+        rewrite (rsubst_closed (dummies (attrs_of d)) _ Hsrc0) in Ha0. rewrite (rsubst_closed args _ Hsrc0) in Hs0, Hmono.
+        assert (Hftv : ftv a0 = []).
+        { pose proof (lib_inline_scoped R _ (gen_scoped is_upper is_alnum is_numeric R env_src g') _ _ Ha0) as Hi.
+          rewrite (rdummies_closed _ Hsrc0) in Hi. destruct (ftv a0) as [|x l0]; [reflexivity|]. exfalso. exact (Hi x (or_introl eq_refl)). }
+        rewrite (tsubst_closed _ _ _ Hftv). eapply Hinl; [exact Hmono | exact Hs0 | exact Ha0].
       * rewrite dummies_eq in Ha0.
         eapply lib_ev; [exact Href | exact Hmono | exact Hs0|].
         exact (name_of_tsubst R (nparams d) (map fst (c_params (attrs_of d))) args l ps Hnp Hps (map_length _ _) Hl Hlen t0 a0 Hpm Ha0).
@@ -1585,12 +1630,13 @@ Proof.
       { apply (pmono_subst R (nparams d) args); [apply Forall_forall; rewrite forallb_forall in Hargs; exact Hargs | exact Hlen | exact Hpm]. }
       eapply (Href_alt tg (rsubst args t0) v0 l0); [apply Hsc_subst; exact Hct | exact Hmono | exact Hs0|].
       exact (name_of_tsubst R (nparams d) (map fst (c_params (attrs_of d))) args l ps Hnp Hps (map_length _ _) Hl Hlen t0 a0 Hpm Ha0).
-    + (* flattened structs: the definition has no parameters *)
-      intros t0 v0 l0 a0 Hct Hpm Hn0 Hs0 Ha0. unfold nparams in Hn0, Hlen, Hpm. rewrite Hn0 in Hlen, Hpm.
-      destruct args; [|discriminate]. assert (Hc : c_params (attrs_of d) = []) by (destruct (c_params (attrs_of d)); [reflexivity | discriminate]).
-      unfold dummies in Ha0. rewrite Hc in Ha0, Hps. cbn [map] in Ha0, Hps. destruct ps; [|discriminate]. cbn in Hl. inversion Hl; subst l.
-      cbn [bind_params]. rewrite tsubst_none. unfold evs. rewrite tsubst_none. rewrite (Hrs0 _ Hpm) in Hs0, Ha0.
-      eapply Hfl_closed; [exact Hct | exact Hpm | exact Hs0 | exact Ha0].
+    + (* flattened structs: the flattened type is closed, so is its text *)
+      intros t0 v0 l0 a0 Hct Hpm Hn0 Hs0 Ha0. pose proof (pmono_src R 0 _ Hn0) as Hsrc0.
+      rewrite (rsubst_closed (dummies (attrs_of d)) _ Hsrc0) in Ha0. rewrite (rsubst_closed args _ Hsrc0) in Hs0.
+      assert (Hftv : ftv a0 = []).
+      { pose proof (lib_flat_scoped R _ (gen_scoped is_upper is_alnum is_numeric R env_src g') _ _ Ha0) as Hi.
+        rewrite (rdummies_closed _ Hsrc0) in Hi. destruct (ftv a0) as [|x l1]; [reflexivity|]. exfalso. exact (Hi x (or_introl eq_refl)). }
+      unfold evs. rewrite (tsubst_closed _ _ _ Hftv). eapply Hfl_closed; [exact Hct | exact Hn0 | exact Hs0 | exact Ha0].
   - intros g d id args v j r Hlk Hlen Hargs Hs Hr.
     destruct (env_facts _ _ Hlk) as (Hpd & Hnp & _).
     destruct g as [|g']; [cbn in Hr; discriminate|]. cbn [Gen.gen] in Hr. cbn [sdef] in Hs.
@@ -1605,9 +1651,9 @@ Proof.
       assert (Hmono : mono_ty (rsubst args t0) = true).
       { apply (pmono_subst R (nparams d) args); [apply Forall_forall; rewrite forallb_forall in Hargs; exact Hargs | exact Hlen | exact Hpm]. }
       eapply (Href_alt tg (rsubst args t0) v0 l0); [apply Hsc_subst; exact Hct | exact Hmono | exact Hs0 | exact Ha0].
-    + intros t0 v0 l0 a0 Hct Hpm Hn0 Hs0 Ha0. unfold nparams in Hn0, Hlen, Hpm. rewrite Hn0 in Hlen, Hpm.
-      destruct args; [|discriminate]. rewrite tsubst_none. unfold evs. rewrite tsubst_none. rewrite (Hrs0 _ Hpm) in Hs0, Ha0.
-      eapply Hfl_closed; [exact Hct | exact Hpm | exact Hs0 | exact Ha0].
+    + intros t0 v0 l0 a0 Hct Hpm Hn0 Hs0 Ha0. pose proof (pmono_src R 0 _ Hn0) as Hsrc0.
+      rewrite tsubst_none. unfold evs. rewrite tsubst_none. rewrite (rsubst_closed args _ Hsrc0) in Hs0, Ha0.
+      eapply Hfl_closed; [exact Hct | exact Hn0 | exact Hs0 | exact Ha0].
   - intros g id args v j r l ps a f0 fs Hlk Htag Hnofl Hlen Hargs Hs Hr Hl Hps.
     destruct (env_facts _ _ Hlk) as (Hpd & Hnp & _). cbn [attrs_of] in *.
     destruct g as [|g']; [cbn in Hr; discriminate|]. cbn [Gen.gen] in Hr. cbn [sdef] in Hs.
@@ -1618,19 +1664,22 @@ Proof.
       assert (Hmono : mono_ty (rsubst args t0) = true).
       { apply (pmono_subst R (length (c_params a)) args); [apply Forall_forall; rewrite forallb_forall in Hargs; exact Hargs | exact Hlen | exact Hpm]. }
       destruct b.
-      * specialize (Hin0 eq_refl). rewrite Hin0 in Hlen.
-        destruct args; [|discriminate]. assert (Hc : c_params a = []) by (destruct (c_params a); [reflexivity | discriminate]).
-        unfold dummies in Ha0. rewrite Hc in Ha0, Hps. cbn [map] in Ha0, Hps. destruct ps; [|discriminate]. cbn in Hl. inversion Hl; subst l.
-        cbn [bind_params]. rewrite tsubst_none. eapply Hinl; [exact Hmono | exact Hs0 | exact Ha0].
+      * specialize (Hin0 eq_refl). pose proof (pmono_src R 0 _ Hin0) as Hsrc0.
+        rewrite (rsubst_closed (dummies a) _ Hsrc0) in Ha0. rewrite (rsubst_closed args _ Hsrc0) in Hs0, Hmono.
+        assert (Hftv : ftv a0 = []).
+        { pose proof (lib_inline_scoped R _ (gen_scoped is_upper is_alnum is_numeric R env_src g') _ _ Ha0) as Hi.
+          rewrite (rdummies_closed _ Hsrc0) in Hi. destruct (ftv a0) as [|x l0]; [reflexivity|]. exfalso. exact (Hi x (or_introl eq_refl)). }
+        rewrite (tsubst_closed _ _ _ Hftv). eapply Hinl; [exact Hmono | exact Hs0 | exact Ha0].
       * change (dummies a) with (dummies (attrs_of (DStruct a (SNamed (f0 :: fs))))) in Ha0. rewrite dummies_eq in Ha0. cbn [attrs_of] in Ha0.
         eapply lib_ev; [exact Href | exact Hmono | exact Hs0|].
         exact (name_of_tsubst R (length (c_params a)) (map fst (c_params a)) args l ps Hnp Hps (map_length _ _) Hl Hlen t0 a0 Hpm Ha0).
     + (* no flattened field: never asked *)
-      intros t0 v0 l0 a0 Hct Hpm Hn0 Hs0 Ha0. rewrite Hn0 in Hlen, Hpm.
-      destruct args; [|discriminate]. assert (Hc : c_params a = []) by (destruct (c_params a); [reflexivity | discriminate]).
-      unfold dummies in Ha0. rewrite Hc in Ha0, Hps. cbn [map] in Ha0, Hps. destruct ps; [|discriminate]. cbn in Hl. inversion Hl; subst l.
-      cbn [bind_params]. rewrite tsubst_none. unfold evs. rewrite tsubst_none. rewrite (Hrs0 _ Hpm) in Hs0, Ha0.
-      eapply Hfl_closed; [exact Hct | exact Hpm | exact Hs0 | exact Ha0].
+      intros t0 v0 l0 a0 Hct Hpm Hn0 Hs0 Ha0. pose proof (pmono_src R 0 _ Hn0) as Hsrc0.
+      rewrite (rsubst_closed (dummies a) _ Hsrc0) in Ha0. rewrite (rsubst_closed args _ Hsrc0) in Hs0.
+      assert (Hftv : ftv a0 = []).
+      { pose proof (lib_flat_scoped R _ (gen_scoped is_upper is_alnum is_numeric R env_src g') _ _ Ha0) as Hi.
+        rewrite (rdummies_closed _ Hsrc0) in Hi. destruct (ftv a0) as [|x l1]; [reflexivity|]. exfalso. exact (Hi x (or_introl eq_refl)). }
+      unfold evs. rewrite (tsubst_closed _ _ _ Hftv). eapply Hfl_closed; [exact Hct | exact Hn0 | exact Hs0 | exact Ha0].
   - intros g id args v j r a f0 fs Hlk Htag Hnofl Hlen Hargs Hs Hr.
     destruct (env_facts _ _ Hlk) as (Hpd & Hnp & _). cbn [attrs_of] in *.
     destruct g as [|g']; [cbn in Hr; discriminate|]. cbn [Gen.gen] in Hr. cbn [sdef] in Hs.
@@ -1641,9 +1690,9 @@ Proof.
       assert (Hmono : mono_ty (rsubst args t0) = true).
       { apply (pmono_subst R (length (c_params a)) args); [apply Forall_forall; rewrite forallb_forall in Hargs; exact Hargs | exact Hlen | exact Hpm]. }
       destruct b; [eapply Hinl | eapply lib_ev; [exact Href|..]]; eassumption.
-    + intros t0 v0 l0 a0 Hct Hpm Hn0 Hs0 Ha0. rewrite Hn0 in Hlen, Hpm.
-      destruct args; [|discriminate]. rewrite tsubst_none. unfold evs. rewrite tsubst_none. rewrite (Hrs0 _ Hpm) in Hs0, Ha0.
-      eapply Hfl_closed; [exact Hct | exact Hpm | exact Hs0 | exact Ha0].
+    + intros t0 v0 l0 a0 Hct Hpm Hn0 Hs0 Ha0. pose proof (pmono_src R 0 _ Hn0) as Hsrc0.
+      rewrite tsubst_none. unfold evs. rewrite tsubst_none. rewrite (rsubst_closed args _ Hsrc0) in Hs0, Ha0.
+      eapply Hfl_closed; [exact Hct | exact Hn0 | exact Hs0 | exact Ha0].
     + exists es. rewrite tsubst_none in Hal. unfold evs in Hev. rewrite tsubst_none in Hev. repeat split; assumption.
 Qed.
 
